@@ -159,6 +159,8 @@ structure Tables where
   intCls : Nat
   /-- index of the class `UntypedAtomic`: the typed value of an element / attribute without schema -/
   untypedCls : Nat
+  /-- `castRows[c][t]` = class of `cast_to_primitive_type(sample of class c, 'xs:<t>')` -/
+  castRows : List (List Nat)
   deriving Repr
 
 def Tables.atomSub (tb : Tables) (a b : Nat) : Bool := (tb.subRows.getD a []).contains b
@@ -544,6 +546,70 @@ def treatAs (tb : Tables) (xsd11 : Bool) (t : Ty) (v : List Item) : Except Err (
   | .empty => if v.isEmpty then .ok [] else .error .XPDY0050
   | t => treatLoop t.tokOcc (instItem tb xsd11 t) 0 v []
 
+/-! ## names and namespaces
+
+A name is a number `100 * n + local`.  In a *node* `n` is the namespace of its expanded QName (0 = no namespace,
+1, 2 = two namespace URIs); in a *name test as written* `n` is the prefix (0 = unprefixed, 1 = `p:`, 2 = `q:`).
+`Ty.resolve` turns the lexical names of the kind tests into expanded names with the statically known namespaces of
+the parser, as `get_expanded_name(name, parser.namespaces)` (sequence_types.py l.378, with the `fix:` of branch
+fix-c18-3 for attribute tests) and the name-test tokens do.  It does not enter typed function tests: their texts
+are compared as texts by `is_sequence_type_restriction`. -/
+
+/-- statically known namespaces of the parser: the default element namespace and the bindings of `p` / `q`
+(0 = none / unbound; the harness never writes an unbound prefix) -/
+structure NsCfg where
+  dflt : Nat
+  p : Nat
+  q : Nat
+  deriving Repr, DecidableEq
+
+/-- expanded name of a lexical QName in an element test (`isAttr = false`: an unprefixed name takes the default
+element namespace) or an attribute test (`isAttr = true`: an unprefixed name is in no namespace) -/
+def resolveName (cfg : NsCfg) (isAttr : Bool) (lex : Nat) : Nat :=
+  let ns := match lex / 100 with
+    | 0 => if isAttr then 0 else cfg.dflt
+    | 1 => cfg.p
+    | _ => cfg.q
+  100 * ns + lex % 100
+
+def NameTest.resolve (cfg : NsCfg) (isAttr : Bool) : NameTest → NameTest
+  | .name n => .name (resolveName cfg isAttr n)
+  | nt => nt
+
+def Leaf.resolve (cfg : NsCfg) : Leaf → Leaf
+  | .kind .element nt => .kind .element (nt.resolve cfg false)
+  | .kind .attribute nt => .kind .attribute (nt.resolve cfg true)
+  | .kindT .element nt ta o => .kindT .element (nt.resolve cfg false) ta o
+  | .kindT .attribute nt ta o => .kindT .attribute (nt.resolve cfg true) ta o
+  | .docElem nt => .docElem (nt.resolve cfg false)
+  | l => l                                   -- PI targets are NCNames; the other leaves carry no name
+
+def Ty.resolve (cfg : NsCfg) : Ty → Ty
+  | .empty => .empty
+  | .leaf l o => .leaf (l.resolve cfg) o
+  | .func a r => .func a r
+  | .map k v o => .map k (v.resolve cfg) o
+  | .array m o => .array (m.resolve cfg) o
+
+/-- trigger of F18n (repaired on branch fix-c18-3): an attribute name test that is prefixed (the kind-test token of
+`instance of` compared the lexical `p:x` with the expanded name) or unprefixed while a default element namespace
+is declared (`match_sequence_type` expanded it with the default namespace) -/
+def Leaf.attrNs (cfg : NsCfg) : Leaf → Bool
+  | .kind .attribute (.name n) => n ≥ 100 || cfg.dflt != 0
+  | .kindT .attribute (.name n) _ _ => n ≥ 100 || cfg.dflt != 0
+  | _ => false
+
+def Ty.trigF18n (cfg : NsCfg) : Ty → Bool
+  | .empty => false
+  | .leaf l _ => l.attrNs cfg
+  | .func _ _ => false
+  | .map _ v _ => v.trigF18n cfg
+  | .array m _ => m.trigF18n cfg
+
+/-- the empty configuration (no default namespace, no prefixes): lexical names of unprefixed tests are the
+expanded names -/
+def NsCfg.none : NsCfg := ⟨0, 0, 0⟩
+
 /-! ## partial application of function items, and judgement histories
 
 `$f(?, 1, 2)` (xpath30/_xpath30_operators.py evaluate__parenthesized_expression): the new function item is a copy
@@ -583,41 +649,82 @@ def Item.partialApplySpec (mask : List Bool) : Item → Item
   | .func a r => .func (partialSig a mask) r
   | x => x
 
-/-- operations of a judgement history on a pool of function items (positions in the pool) -/
+/-! ### function conversion of arguments and results (`cast_to_primitive_type`)
+
+`get_argument` (xpath30/_xpath30_functions.py l.117-131) and `validated_result` (functions.py l.164-174): a value that
+does not match the declared type is passed through `cast_to_primitive_type` (xpath_tokens/base.py l.805-828: a NEW list
+`xlist([cast_value(x) for x in value])`; xs:untypedAtomic / xs:anyURI items are cast to the declared atomic type, numeric
+items are promoted when the declared type is xs:double / xs:float) and must match then, else XPTY0004. -/
+
+/-- the class of the value that `cast_to_primitive_type` produces from a value of class `c` for the declared atomic
+type `t` (generated table; `c` itself where the cast does not apply or fails) -/
+def Tables.castCls (tb : Tables) (c t : Nat) : Nat := (tb.castRows.getD c []).getD t c
+
+/-- `cast_to_primitive_type(value, 'xs:<t>…')`: item by item, into a new list -/
+def castSeq (tb : Tables) (t : Nat) (v : List Item) : List Item :=
+  v.map (fun x => match x with | .atom c => .atom (tb.castCls c t) | x => x)
+
+/-- the value bound to a parameter declared `T` (or returned through a declared result type `T`), or XPTY0004 -/
+def convertArg (tb : Tables) (xsd11 : Bool) (T : Ty) (v : List Item) : Except Err (List Item) :=
+  match matchSt tb xsd11 true T v with
+  | .error e => .error e
+  | .ok true => .ok v
+  | .ok false =>
+    let v' := match T with
+      | .leaf (.atomic t) _ => castSeq tb t v
+      | _ => v
+    match matchSt tb xsd11 true T v' with
+    | .error e => .error e
+    | .ok true => .ok v'
+    | .ok false => .error .XPDY0050     -- reported as XPTY0004 by the code; the model has one "type error" code
+
+/-- operations of a judgement history on a pool of values (positions in the pool) -/
 inductive HOp
   | jMatch (i : Nat) (t : Ty)          -- match_sequence_type(pool[i], t)
   | jInst (i : Nat) (t : Ty)           -- pool[i] instance of t
   | jTreat (i : Nat) (t : Ty)          -- pool[i] treat as t
   | jArg (i : Nat) (t : Ty)            -- function($g as t) { true() }(pool[i])   (T = accepted, F = XPTY0004)
   | papp (i : Nat) (mask : List Bool)      -- pool.append(pool[i](mask))
+  | coerce (i k : Nat) (t r : Ty)      -- pool.append(function($s as t) as r { $s }(member k of pool[i]))
 
 def HOp.isPartial : HOp → Bool
-  | .papp _ _ => true | _ => false
+  | .papp _ _ => true | .coerce _ _ _ _ => true | _ => false
 
-/-- one step: the new pool and the answer (`none` for a partial application).  Judgements only read. -/
-def hStep (tb : Tables) (xsd11 : Bool) (pool : List Item) : HOp → List Item × Option Res
-  | .jMatch i t => (pool, some (matchSt tb xsd11 true t [pool.getD i default]))
-  | .jInst i t => (pool, some (instanceOf tb xsd11 t [pool.getD i default]))
-  | .jTreat i t => (pool, some (match treatAs tb xsd11 t [pool.getD i default] with
+/-- the sequence stored as member `k` of an array / as the value of entry `k` of a map (the dynamic calls `$a(k+1)`,
+`$m(key)` return the stored list itself); a value that is no single array / map is taken whole -/
+def memberOf (v : List Item) (k : Nat) : List Item :=
+  match v with
+  | [.array ms] => ms.getD k []
+  | [.map es] => (es.getD k (0, [])).2
+  | v => v
+
+def headItem (v : List Item) : Item := v.headD default
+
+/-- one step: the new pool and the answer (`none` for a partial application).  No step changes a value that is
+already in the pool: judgements only read, partial applications and conversions append a NEW value. -/
+def hStep (tb : Tables) (xsd11 : Bool) (pool : List (List Item)) : HOp → List (List Item) × Option Res
+  | .jMatch i t => (pool, some (matchSt tb xsd11 true t (pool.getD i [])))
+  | .jInst i t => (pool, some (instanceOf tb xsd11 t (pool.getD i [])))
+  | .jTreat i t => (pool, some (match treatAs tb xsd11 t (pool.getD i []) with
       | .ok _ => .ok true | .error .XPDY0050 => .ok false | .error e => .error e))
-  | .jArg i t => (pool, some (match pool.getD i default, t with
+  | .jArg i t => (pool, some (match headItem (pool.getD i []), t with
       | .func sa sr, .func a r => .ok (funcItemTestArg tb sa sr a r)
-      | x, t => matchSt tb xsd11 true t [x]))          -- function(*) / maps / arrays / other items: the ordinary test
-  | .papp i mask => (pool ++ [(pool.getD i default).partialApply mask], none)
+      | _, t => match convertArg tb xsd11 t (pool.getD i []) with   -- other values: the function conversion rules
+        | .ok _ => .ok true | .error .XPDY0050 => .ok false | .error e => .error e))
+  | .papp i mask => (pool ++ [[(headItem (pool.getD i [])).partialApply mask]], none)
+  | .coerce i k t r =>
+    match (convertArg tb xsd11 t (memberOf (pool.getD i []) k)).bind (convertArg tb xsd11 r) with
+    | .ok w => (pool ++ [w], some (.ok true))
+    | .error .XPDY0050 => (pool ++ [[]], some (.ok false))
+    | .error e => (pool ++ [[]], some (.error e))
 
-def hRun (tb : Tables) (xsd11 : Bool) : List Item → List HOp → List (Option Res)
+def hRun (tb : Tables) (xsd11 : Bool) : List (List Item) → List HOp → List (Option Res)
   | _, [] => []
   | pool, op :: ops => (hStep tb xsd11 pool op).2 :: hRun tb xsd11 (hStep tb xsd11 pool op).1 ops
 
-def hPool (tb : Tables) (xsd11 : Bool) : List Item → List HOp → List Item
+def hPool (tb : Tables) (xsd11 : Bool) : List (List Item) → List HOp → List (List Item)
   | pool, [] => pool
   | pool, op :: ops => hPool tb xsd11 (hStep tb xsd11 pool op).1 ops
-
-/-- the same history for the specification: partial applications typed by `partialSig` -/
-def hPoolSpec : List Item → List HOp → List Item
-  | pool, [] => pool
-  | pool, .papp i mask :: ops => hPoolSpec (pool ++ [(pool.getD i default).partialApplySpec mask]) ops
-  | pool, _ :: ops => hPoolSpec pool ops
 
 /-! ## the text of a type and the string-level splitting of a typed function test
 
@@ -646,7 +753,8 @@ def Occ.text : Occ → String
   | .one => "" | .opt => "?" | .star => "*" | .plus => "+"
 
 def NameTest.text : NameTest → String
-  | .none => "" | .wild => "*" | .name n => s!"n{n}"
+  | .none => "" | .wild => "*"
+  | .name n => (match n / 100 with | 0 => "" | 1 => "p:" | _ => "q:") ++ s!"n{n % 100}"
 
 def Kind.str : Kind → String
   | .document => "document-node" | .element => "element" | .attribute => "attribute" | .text => "text"
